@@ -307,6 +307,65 @@ def rule_borrowed(ctx, repo):
                   "input value while the source holds the system-base value" % (n, pn, sm, sp_name, ",".join(fl)), elab.locate(m, pn))
 
 
+def rule_effect(ctx, repo):
+    """'takes effect in the next residual evaluation': a parameter that reaches the equations ONLY through ConstService strings is
+    read when the services are evaluated (at initialisation), not when the residuals are; altering it afterwards changes nothing
+    unless the alteration call re-evaluates the dependent services.  Mechanism-level rule: either no dynamic model has such a
+    parameter, or Model.set / Model.alter refresh the services."""
+    import re
+    from engine import elab, dsl
+    models = elab.load_models()
+    affected = {}
+    for name, m in models.items():
+        if not m.flags.tds:
+            continue
+        st = dsl.SymTab(m)
+
+        def syms(text):
+            try:
+                return {str(x) for x in dsl.parse_dsl(text, st).free_symbols}
+            except Exception:
+                return set(re.findall(r"[A-Za-z_][A-Za-z_0-9]*", text))
+        eq = set()
+        for vn, v in m.cache.all_vars.items():
+            if v.e_str:
+                eq |= syms(v.e_str)
+        for dn, d in m.discrete.items():
+            for a in ("u", "lower", "upper", "center", "bound"):
+                o = getattr(d, a, None)
+                if o is not None and getattr(o, "name", None):
+                    eq.add(o.name)
+        for sn, sv in m.services.items():
+            if type(sv).__name__ == "VarService" and sv.v_str:
+                eq |= syms(sv.v_str)
+        const = {sn: sv for sn, sv in m.services.items() if type(sv).__name__ == "ConstService" and sv.v_str}
+        dep = {sn: syms(sv.v_str) for sn, sv in const.items()}
+        used = {x for x in eq if x in const}
+        frontier = list(used)
+        while frontier:
+            for d_ in dep[frontier.pop()]:
+                if d_ in const and d_ not in used:
+                    used.add(d_)
+                    frontier.append(d_)
+        via = set()
+        for sn in used:
+            via |= dep[sn]
+        ps = sorted(p for p in m.num_params if p in via and p not in eq and p not in ("u", "ug"))
+        if ps:
+            affected[name] = ps
+    n = sum(len(v) for v in affected.values())
+    ctx.count("service_mediated_parameters", n)
+    ms = F.method(repo, "Model", "set", MODEL)
+    ma = F.method(repo, "Model", "alter", MODEL)
+    refreshes = any((dotted(c.func) or "").split(".")[-1] in ("s_update", "s_update_var", "s_update_post", "refresh_services")
+                    for f_ in (ms, ma) for c in calls_in(f_.fn))
+    sample = "; ".join("%s: %s" % (k, ",".join(v[:4])) for k, v in list(sorted(affected.items()))[:6])
+    ctx.check(n == 0 or refreshes, "C11.effect", "Model.alter/const-services", "altered parameters reach the residuals (no service-mediated parameter, or services refreshed)",
+              "%d parameters of %d dynamic models reach the equations only through ConstService strings (%s ...); Model.set/alter write the "
+              "parameter array and do not re-evaluate the services: after dynamic initialisation such an alteration has no effect on the "
+              "residuals" % (n, len(affected), sample), ms.W())
+
+
 def rule_reset(ctx, repo):
     r = F.method(repo, "System", "reset", SYSTEM)
     a = r.calls("self._p_restore")
@@ -361,11 +420,12 @@ def run(ctx):
     ctx.rule("C11.tconst", "time-constant alteration reaches dae.Tf and TDS.Teye for every governed state, unconditionally", 5)
     ctx.rule("C11.export", "export reads the input-base view and refreshes the cached view first (dominance)", 5)
     ctx.rule("C11.reset", "restore before setup on reset; DAE back to its constructed state (counters, time sentinel)", 5)
-    ctx.assume("'takes effect in the next residual evaluation' beyond these data-flow facts is declined")
+    ctx.rule("C11.effect", "altered parameters reach the residuals: none is read only when the ConstServices are evaluated, or alter refreshes them", 1)
     repo = Repo()
     rule_coeffs(ctx, repo)
     rule_invariant(ctx, repo)
     rule_borrowed(ctx, repo)
+    rule_effect(ctx, repo)
     rule_tconst(ctx, repo)
     rule_export(ctx, repo)
     rule_reset(ctx, repo)
